@@ -343,6 +343,13 @@ def run_band(case, ctx):
         name = G.pick(rng, names)
         eqa = equipment['Edfa'][name]
         f_lo, f_hi = eqa.f_min, eqa.f_max
+        override = None
+        if rng.random() < 0.35 and f_hi - f_lo > 2e12:
+            # the network element narrows the band of its library type with its own f_min / f_max (params of the
+            # element in the topology file): the element's band is the one in force
+            override = (f_lo + G.pick(rng, [0.0, 0.5e12, 0.725e12]), f_hi - G.pick(rng, [0.0, 0.4e12, 1.125e12]))
+            f_lo, f_hi = override
+            ctx.count('band_checks_with_element_level_band')
         # carriers around both band edges, some exactly on the edge, some 1 Hz outside
         slot = G.pick(rng, [50e9, 75e9, 37.5e9])
         baud = slot * 0.64
@@ -372,6 +379,11 @@ def run_band(case, ctx):
                     if c['frequency'] - slot / 2 >= f_lo and c['frequency'] + slot / 2 <= f_hi]
         amp = make_amp(equipment, name, {'gain_target': float(getattr(eqa, 'gain_min', 15) or 15) + 1,
                                          'tilt_target': 0, 'out_voa': 0})
+        if override:
+            amp = Edfa(uid=f'amp {name}', type_variety=name,
+                       params=dict(deepcopy(equipment['Edfa'][name].__dict__), f_min=f_lo, f_max=f_hi),
+                       operational={'gain_target': float(getattr(eqa, 'gain_min', 15) or 15) + 1, 'tilt_target': 0,
+                                    'out_voa': 0})
         ctx.count('band_filter_checks')
         try:
             out = amp(make_si(cs))
